@@ -294,6 +294,7 @@ func checkC18(c *Ctx) {
 	}
 	c.ruleLoggerContext("C18-R6")
 	c.ruleGuardedMaps("C18-R7")
+	c.ruleOptionalCallbacksGuarded("C18-R8")
 	_ = token.ADD
 	_ = types.Typ
 }
@@ -343,4 +344,115 @@ func (c *Ctx) ruleStepStopsOnlyOnError(id string) {
 		}
 	}
 	ru.Check(bad == "", "stop ⇔ error in "+c.fname(step), c.where(step, step), "consistent on all paths", bad)
+}
+
+// ruleOptionalCallbacksGuarded implements C18-R8: a function value kept in a struct field that some producer leaves nil
+// (the completion callback of a publish request: a will has nobody to answer) is called only under a test that it is
+// not nil. The workers that call it run without recover: calling nil there ends the process — and the input that
+// selects that path is a client's (a CONNECT with a will, then a dropped connection).
+func (c *Ctx) ruleOptionalCallbacksGuarded(id string) {
+	ru := c.R.Rule(id, "a callback stored in a struct field that may be nil — some store into that field writes nil, directly or through a parameter that a call site fills with nil — is invoked only where a dominating test established that it is not nil (a nil call in a worker goroutine is an unrecovered panic: one will-carrying client that drops its connection stops the broker)", "E3 may-be-nil over the stores into the field + E2 control dependence of each call through it", 1)
+	type fkey struct {
+		t   types.Type
+		idx int
+	}
+	isNilFunc := func(v ssa.Value) bool {
+		k, ok := v.(*ssa.Const)
+		if !ok || k.Value != nil {
+			return false
+		}
+		_, isSig := k.Type().Underlying().(*types.Signature)
+		return isSig
+	}
+	mayBeNil := map[fkey]bool{}
+	known := map[fkey]bool{}
+	for _, f := range c.P.ModFuncs() {
+		for _, b := range f.Blocks {
+			for _, in := range b.Instrs {
+				st, ok := in.(*ssa.Store)
+				if !ok {
+					continue
+				}
+				fa, ok := st.Addr.(*ssa.FieldAddr)
+				if !ok {
+					continue
+				}
+				if _, isSig := derefT(fa.Type()).Underlying().(*types.Signature); !isSig {
+					continue
+				}
+				k := fkey{derefT(fa.X.Type()), fa.Field}
+				known[k] = true
+				if depReaches(st.Val, isNilFunc) {
+					mayBeNil[k] = true
+				}
+			}
+		}
+	}
+	n := 0
+	for _, f := range c.P.ModFuncs() {
+		if c.P.IsGenerated(f) {
+			continue
+		}
+		for _, cl := range core.CallsIn(f) {
+			if cl.Static != nil || cl.Invoke || cl.Builtin() != "" || cl.Common == nil {
+				continue
+			}
+			cv := core.Strip(cl.Common.Value)
+			var k fkey
+			var base ssa.Value
+			switch x := cv.(type) {
+			case *ssa.UnOp:
+				fa, ok := x.X.(*ssa.FieldAddr)
+				if x.Op != token.MUL || !ok {
+					continue
+				}
+				k, base = fkey{derefT(fa.X.Type()), fa.Field}, fa.X
+			case *ssa.Field:
+				k, base = fkey{x.X.Type(), x.Field}, x.X
+			default:
+				continue
+			}
+			found := false
+			for kk := range mayBeNil {
+				if kk.idx == k.idx && types.Identical(kk.t, k.t) {
+					found = true
+				}
+			}
+			if !found {
+				continue
+			}
+			n++
+			c.R.Fn(c.fname(f))
+			guarded := false
+			for _, cc := range controllingConds(cl.Instr.Block(), nil) {
+				bo, ok := cc.cond.(*ssa.BinOp)
+				if !ok || (bo.Op != token.EQL && bo.Op != token.NEQ) {
+					continue
+				}
+				for _, pair := range [][2]ssa.Value{{bo.X, bo.Y}, {bo.Y, bo.X}} {
+					if kc, ok := pair[1].(*ssa.Const); !ok || kc.Value != nil {
+						continue
+					}
+					// another read of the same field of the same object
+					same := false
+					switch y := core.Strip(pair[0]).(type) {
+					case *ssa.UnOp:
+						if fa, ok := y.X.(*ssa.FieldAddr); ok && y.Op == token.MUL && fa.Field == k.idx && core.Term(fa.X) == core.Term(base) {
+							same = true
+						}
+					case *ssa.Field:
+						if y.Field == k.idx && core.Term(y.X) == core.Term(base) {
+							same = true
+						}
+					}
+					if same && cc.pol == (bo.Op == token.NEQ) {
+						guarded = true
+					}
+				}
+			}
+			key := fmt.Sprintf("call through %s in %s", short(core.Term(cv), 40), c.fname(f))
+			ru.Check(guarded, key, c.whereI(cl.Instr), "under a non-nil test", "this field is left nil by some producer, and it is called here without a test: a nil function call panics, in a goroutine that nothing recovers")
+		}
+	}
+	ru.Anchor(n > 0, "a call through a callback field that some producer leaves nil")
 }
